@@ -269,7 +269,7 @@ class HState(c01.State):
         self.nv += 1
         if self.nv <= len(self.vals):
             return self.vals[self.nv - 1]
-        v = self.ex.int(f"v{self.nv}")
+        v = (1 + self.ex.choose(2)) if self.plain else self.ex.int(f"v{self.nv}")
         self.vals.append(v)
         return v
 
